@@ -317,6 +317,77 @@ func c09EffectSites(fn *ssa.Function, bind c09Bind, isEffect func(call ssa.CallI
 			out = append(out, call.(ssa.Instruction))
 		}
 	}
+	// a table of step closures run by a first-error loop is the sequence of its steps: once the table is exhausted
+	// every step has returned nil; the first instruction behind the "exhausted" edge stands for the effect of a step
+	// all of whose nil returns performed it
+	if depth > 0 {
+		for _, sl := range c09StepLoops(fn) {
+			for _, st := range sl.Steps {
+				mc, ok := c09Resolved(st).(*ssa.MakeClosure)
+				if !ok {
+					continue
+				}
+				g := mc.Fn.(*ssa.Function)
+				if len(g.Blocks) == 0 || g == fn {
+					continue
+				}
+				inner := c09EffectSites(g, bind, isEffect, depth-1)
+				if len(inner) > 0 && c09NilReturnsPass(g, inner) && len(sl.Done.To.Instrs) > 0 {
+					out = append(out, sl.Done.To.Instrs[0])
+					break
+				}
+			}
+		}
+	}
+	return out
+}
+
+// c09StepLoops: the first-error step tables of fn (c11StepLoops) whose loop goes on only when the step returned nil.
+func c09StepLoops(fn *ssa.Function) []c11StepLoop {
+	var out []c11StepLoop
+	for _, sl := range c11StepLoops(fn) {
+		_, nonNil, ifs := NilTests(fn, Aliases(sl.Call))
+		ok := len(ifs) > 0 && len(sl.Done.To.Preds) == 1
+		for _, nn := range nonNil {
+			if reach(nn.To, 0, sl.Loop.Header.Instrs[0], nil) {
+				ok = false
+			}
+		}
+		if ok {
+			out = append(out, sl)
+		}
+	}
+	return out
+}
+
+// c09StepTableSuccess: the edges of f on which an effect has succeeded that is made by a step of a first-error step
+// table: the "table exhausted" edge, when some step reports success only behind a successful call matching isEffect.
+func c09StepTableSuccess(f *ssa.Function, isEffect func(call ssa.CallInstruction) bool) []Edge {
+	var out []Edge
+	for _, sl := range c09StepLoops(f) {
+		for _, st := range sl.Steps {
+			mc, ok := c09Resolved(st).(*ssa.MakeClosure)
+			if !ok {
+				continue
+			}
+			g := mc.Fn.(*ssa.Function)
+			var calls []ssa.Instruction
+			for _, call := range Calls(g, func(string) bool { return true }) {
+				if _, isCall := call.(*ssa.Call); isCall && isEffect(call) {
+					calls = append(calls, call.(ssa.Instruction))
+				}
+			}
+			if len(calls) == 0 {
+				continue
+			}
+			ct := newCut()
+			c09SuccessCut(g, calls, ct)
+			if ok, _ := c09SuccessImplies(g, ct); ok {
+				out = append(out, sl.Done)
+				break
+			}
+		}
+	}
 	return out
 }
 
@@ -754,6 +825,12 @@ func c09FieldBase(x ssa.Value, field string) ssa.Value {
 		}
 		if a, ok := fa.X.(*ssa.Alloc); ok {
 			if st := storesTo(a); len(st) == 1 {
+				return st[0].Val
+			}
+		}
+		// the struct is a variable captured by a closure (a step of a table): the cell of the enclosing function
+		if fv, ok := fa.X.(*ssa.FreeVar); ok {
+			if st := c09CellStores(fv); len(st) == 1 {
 				return st[0].Val
 			}
 		}
